@@ -2,6 +2,7 @@
 """Confirm a seeded change delivered by a sub-agent, store it under /verif/seeded/<id>/, and run the registered
 checks against it (patch applied to /repo, reverted straight afterwards)."""
 import json, os, re, shutil, subprocess, sys, time
+os.environ['VF_EVIDENCE_DIR'] = '/tmp/vf_evidence_scratch'   # never overwrite the committed evidence from a changed tree
 VERIF = os.path.dirname(os.path.dirname(os.path.abspath(__file__)))
 
 
